@@ -1,5 +1,6 @@
 //! Shared model code of the verification harness for varlink/rust.
 pub mod ctx;
+pub mod jsongen;
 pub mod pt;
 pub mod sock;
 pub mod svc;
